@@ -580,6 +580,7 @@ def op_l_setitem(f, t, a, out):
 
 
 def op_l_setslice(f, t, a, out):
+    out.batch = True
     s = slice(*a['s'])
     t[s] = [materialize(f, x) for x in a['vs']]
 
@@ -640,11 +641,13 @@ def op_l_reverse(f, t, a, out):
 
 
 def op_l_iadd(f, t, a, out):
+    out.batch = True
     vs = [materialize(f, x) for x in a['vs']]
     t += vs
 
 
 def op_l_imul(f, t, a, out):
+    out.batch = True
     if len(t) * max(a['n'], 1) > 16:
         out.skipped = True          # keep trees small
         return
@@ -730,6 +733,7 @@ def op_d_update(f, t, a, out):
 
 
 def op_d_ior(f, t, a, out):
+    out.batch = True
     form, items = _update_arg(f, t, a)
     t |= dict(items)
 
@@ -998,6 +1002,8 @@ def run_case(case: dict, prop=None):
             states.append(small_hash([[p[0] for p in post], [s for s in op.get('scopes', [])]]))
             oracle.after(step, op, out, pre, post, pre_nodes, interrupted)
         depth_ok = n_ok
+        if not V:
+            oracle.finish(len(case['ops']))
     finally:
         values.EVENT_SINK[0] = None
     return _result(prop, case, V, log, faults, probes, states, relaxed, depth_ok)
@@ -1034,6 +1040,9 @@ class OracleBase:
         pass
 
     def on_skipped(self, step, op):
+        pass
+
+    def finish(self, step):
         pass
 
     # shared pieces ---------------------------------------------------------
@@ -1142,9 +1151,15 @@ def shrink_candidates(case):
 LIST_PARTS = [('ops',)]
 
 
-def budget(tier):
+QUICK_RUNS = {'C01': 30000, 'C02': 60000, 'C03': 12000, 'C07': 20000, 'C08': 20000, 'C09': 20000}
+_BUDGET_PROP = ['C01']
+
+
+def budget(tier, prop=None):
+    if prop is not None:
+        _BUDGET_PROP[0] = prop
     if tier == 'quick':
-        return {'runs': 24000, 'wall': 70, 'chunk': 100, 'selftest': 8, 'minimise_s': 60,
+        return {'runs': QUICK_RUNS.get(_BUDGET_PROP[0], 24000), 'wall': 70, 'chunk': 100, 'selftest': 8, 'minimise_s': 60,
                 'canary_runs': 8000, 'canary_wall': 60}
     return {'runs': 400000, 'wall': 1200, 'chunk': 200, 'selftest': 24, 'minimise_s': 180,
             'canary_runs': 8000, 'canary_wall': 60}
@@ -1520,3 +1535,242 @@ CANARIES = {}
 for _p, _d in CANARIES_BY_PROP.items():
     for _n, _c in _d.items():
         CANARIES[f'{_p}.{_n}'] = _c
+
+
+# ---------------------------------------------------------------------------
+# C03: typed values always satisfy their schema
+
+
+def _schema_of(node):
+    if isinstance(node, pg.Object):
+        return type(node).__schema__
+    if isinstance(node, pg.Dict) and node.value_spec is not None:
+        return node.value_spec.schema
+    return None
+
+
+def schema_errors(root, partial_ok, limit=2):
+    """The schema invariant on every typed node of one tree."""
+    errs = []
+    for node, parent, key, path in values.walk(root):
+        if len(errs) >= limit:
+            break
+        may_be_partial = id(node) in partial_ok
+        where = f'{type(node).__name__}@{list(path)}'
+        schema = _schema_of(node)
+        if schema is not None:
+            present = list(node.sym_keys())
+            for k in present:
+                if schema.get_field(k) is None:
+                    errs.append(('undeclared-key', f'{where}: key {k!r} is not declared'))
+            for kspec, field in schema.items():
+                if not isinstance(kspec, pg.typing.ConstStrKey):
+                    continue
+                name = str(kspec)
+                v = node.sym_getattr(name, MISSING) if node.sym_hasattr(name) else MISSING
+                if v is MISSING or (not isinstance(v, (int, float, str, bool)) and MISSING == v
+                                    and not isinstance(v, pg.Symbolic)):
+                    if not may_be_partial:
+                        errs.append(('required-missing',
+                                     f'{where}: field {name!r} is missing but the value was '
+                                     f'never made partial'))
+                    continue
+                if field.frozen and not pg.eq(v, field.default_value):
+                    errs.append(('frozen-changed', f'{where}: frozen field {name!r} = {v!r}, '
+                                 f'frozen value {field.default_value!r}'))
+                    continue
+                e = _apply_error(field.value, v, may_be_partial)
+                if e:
+                    errs.append(('field-rejected', f'{where}: field {name!r} holds {v!r:.80} '
+                                 f'which its spec rejects or changes: {e}'))
+            # dynamic keys
+            for k in present:
+                f = schema.get_field(k)
+                if f is not None and not isinstance(f.key, pg.typing.ConstStrKey):
+                    v = node.sym_getattr(k)
+                    e = _apply_error(f.value, v, may_be_partial)
+                    if e:
+                        errs.append(('field-rejected', f'{where}: key {k!r} holds {v!r:.80} '
+                                     f'which its spec rejects or changes: {e}'))
+        if isinstance(node, pg.List) and node.value_spec is not None:
+            spec = node.value_spec
+            if len(node) < spec.min_size:
+                errs.append(('below-min-size', f'{where}: len {len(node)} < min_size {spec.min_size}'))
+            if node.max_size is not None and len(node) > node.max_size:
+                errs.append(('above-max-size', f'{where}: len {len(node)} > max_size {node.max_size}'))
+            for i, v in enumerate(node.sym_values()):
+                e = _apply_error(spec.element.value, v, may_be_partial)
+                if e:
+                    errs.append(('element-rejected', f'{where}[{i}] holds {v!r:.80} which the '
+                                 f'element spec rejects or changes: {e}'))
+                    break
+    return errs
+
+
+def _primitive_error(vspec, v):
+    """Independent judgement for simple specs from their public attributes
+    (so that the check does not rest on `apply` alone)."""
+    vt = pg.typing
+    if v is None:
+        return None if vspec.is_noneable else 'None for a non-noneable field'
+    if isinstance(vspec, vt.Enum):
+        return None if v in vspec.values else f'{v!r} not among {vspec.values}'
+    if isinstance(vspec, vt.Bool):
+        return None if isinstance(v, bool) else f'{type(v).__name__} for Bool'
+    if isinstance(vspec, vt.Int):
+        if not isinstance(v, int) or isinstance(v, bool):
+            return f'{type(v).__name__} for Int'
+        if vspec.min_value is not None and v < vspec.min_value:
+            return f'{v} < min_value {vspec.min_value}'
+        if vspec.max_value is not None and v > vspec.max_value:
+            return f'{v} > max_value {vspec.max_value}'
+        return None
+    if isinstance(vspec, vt.Str):
+        return None if isinstance(v, str) else f'{type(v).__name__} for Str'
+    if isinstance(vspec, vt.Object):
+        return None if isinstance(v, vspec.cls) else f'{type(v).__name__} for Object({vspec.cls.__name__})'
+    return None
+
+
+def _apply_error(vspec, v, allow_partial):
+    if not (isinstance(v, pg.Symbolic) and v.sym_partial) and MISSING != v:
+        e = _primitive_error(vspec, v)
+        if e:
+            return e
+    try:
+        c = v.clone(deep=True) if isinstance(v, pg.Symbolic) else copy.deepcopy(v)
+        with pg.allow_partial(None), pg.enable_type_check(True), pg.as_sealed(False):
+            r = vspec.apply(c, allow_partial=allow_partial)
+    except (TypeError, ValueError, KeyError) as e:
+        return f'{type(e).__name__}: {str(e)[:160]}'
+    if not pg.eq(r, v):
+        return f'apply maps it to {r!r:.80}'
+    return None
+
+
+class C03Oracle(OracleBase):
+    def start(self):
+        self.partial_ok = set()
+        self._keep = []
+        for ri, d in enumerate(self.case['roots']):
+            if d.get('partial') and ri < len(self.forest.roots):
+                self._mark(self.forest.roots[ri])
+        self._defaults0 = self._class_defaults()
+        # the initial forest must satisfy the invariant, or the generator is wrong
+        self._check_all(-1, {'k': 'initial', 'a': {}}, None)
+
+    def _mark(self, root):
+        for n, _, _, _ in values.walk(root):
+            self.partial_ok.add(id(n))
+            self._keep.append(n)
+
+    @staticmethod
+    def _class_defaults():
+        with pg.allow_partial(None), pg.as_sealed(False), pg.enable_type_check(True):
+            return json.dumps([_plain(Node.partial()), _plain(Leaf()),
+                               _plain(pg.Dict(value_spec=spec_of('TD1')))], default=repr)
+
+    def finish(self, step):
+        # the schema itself is shared state: no history may change the defaults
+        # that a fresh instance gets
+        now = self._class_defaults()
+        if now != self._defaults0:
+            self.bad('C03.defaults-changed', 'class-level',
+                     f'after the history a fresh instance gets other defaults: {now[:300]} '
+                     f'(before: {self._defaults0[:300]})', step)
+
+    def _check_all(self, step, op, out):
+        for ri, root in enumerate(self.forest.roots):
+            if not isinstance(root, pg.Symbolic):
+                continue
+            for code, msg in schema_errors(root, self.partial_ok)[:1]:
+                status = out.status if out is not None else '-'
+                self.bad(f'C03.{code}', f'{op["k"]}|{status}',
+                         f'after {op["k"]}{json.dumps(op["a"])[:160]} ({status}): root {ri}: {msg}',
+                         step)
+                return False
+        return True
+
+    def after(self, step, op, out, pre, post, pre_nodes, interrupted):
+        scopes = dict((n, v) for n, v in op.get('scopes', []))
+        if scopes.get('allow_partial') is True and out.root_index is not None:
+            # explicitly made partial: everything in that tree, and what the op created
+            self._mark(self.forest.roots[out.root_index])
+            self.probes['partial_scope_writes'] = self.probes.get('partial_scope_writes', 0) + 1
+        for r in out.new_roots:
+            if isinstance(r, pg.Symbolic) and out.target is not None and \
+                    id(out.target) in self.partial_ok:
+                self._mark(r)
+        # values moved/copied out of partial trees stay allowed to be partial
+        if out.root_index is not None and out.root_index < len(self.forest.roots):
+            root = self.forest.roots[out.root_index]
+            if any(a and a[0] == 'attached' for a in _arg_descs(op)):
+                if any(id(n) in self.partial_ok for ns in pre_nodes for n in ns):
+                    self._mark(root)
+        if not self._check_all(step, op, out):
+            return
+        # failure atomicity: a rejected single write leaves everything as it was
+        if out.status == 'raised' and not isinstance(out.exc, HandlerFault) \
+                and op['k'] not in ('l_sort',):
+            if not out.batch or isinstance(out.exc, pg.WritePermissionError):
+                for ri in range(min(len(pre), len(post))):
+                    if pre[ri][0] != post[ri][0]:
+                        self.bad('C03.rejected-write-stored',
+                                 f'{op["k"]}|{type(out.exc).__name__}',
+                                 f'{op["k"]}{json.dumps(op["a"])[:160]} raised '
+                                 f'{type(out.exc).__name__} ({str(out.exc)[:120]}) but root {ri} '
+                                 f'changed: {pre[ri][0][:160]} -> {post[ri][0][:160]}', step)
+                        return
+            else:
+                self.probes['rejected_batch'] = self.probes.get('rejected_batch', 0) + 1
+        if out.status == 'raised' and isinstance(out.exc, (TypeError, ValueError, KeyError)):
+            self.probes['schema_rejections'] = self.probes.get('schema_rejections', 0) + 1
+
+
+def _arg_descs(op):
+    a = op['a']
+    out = []
+    if 'v' in a:
+        out.append(a['v'])
+    out += a.get('vs', [])
+    out += [v for _, v in a.get('items', [])]
+    for _, v in a.get('paths', []):
+        out.append(v[1] if v and v[0] == 'insertion' else v)
+    return out
+
+
+ORACLES['C03'] = C03Oracle
+
+
+CANARIES_BY_PROP['C03'] = {
+    'dict_skips_apply_for_symbolic': _canary(
+        _D, 'Dict', '_formalized_value', 'if field and flags.is_type_check_enabled():',
+        'if field and flags.is_type_check_enabled() and not isinstance(value, base.Symbolic):'),
+    'list_max_size_off_by_one': _canary(
+        _L, 'List', '_set_item_without_permission_check',
+        'and self.max_size is not None and len(self) >= self.max_size):',
+        'and self.max_size is not None and len(self) > self.max_size):'),
+    'delitem_min_size_off_by_one': _canary(
+        _L, 'List', '__delitem__', 'len(self) <= self._value_spec.min_size',
+        'len(self) < self._value_spec.min_size'),
+    'undeclared_key_accepted': _canary(
+        _D, 'Dict', '_set_item_without_permission_check', 'if not field:', 'if False:'),
+    'frozen_assignable': _canary(
+        'pyglove.core.typing.value_specs', 'ValueSpecBase', 'apply',
+        'if MISSING_VALUE != value and self.default != value:', 'if False:'),
+    'enum_unchecked': _canary(
+        'pyglove.core.typing.value_specs', 'Enum', '_validate',
+        'if value not in self._values:', 'if False:'),
+    'int_max_unchecked': _canary(
+        'pyglove.core.typing.value_specs', 'Number', '_validate',
+        'self._max_value is not None and value > self._max_value', 'False'),
+    'list_element_apply_skipped': _canary(
+        _L, 'List', '_formalized_value', 'if self._value_spec and flags.is_type_check_enabled():',
+        'if False:'),
+    'store_before_validate': _canary(
+        _D, 'Dict', '_set_item_without_permission_check',
+        'new_value = self._formalized_value(key, field, value)\n    super().__setitem__(key, new_value)',
+        'super().__setitem__(key, value)\n    new_value = self._formalized_value(key, field, value)\n    super().__setitem__(key, new_value)'),
+}
+for _n, _c in CANARIES_BY_PROP['C03'].items():
+    CANARIES[f'C03.{_n}'] = _c
